@@ -1912,8 +1912,12 @@ impl Node {
         // continue with the initial channel_id0.
         let chan_id = opt_channel_id.as_ref().unwrap_or(&channel_id0);
 
+        // The channel map stays locked from the look-up of the stub to the insertion of the
+        // ready channel, so that the stub cannot be forgotten or pruned in between
+        // (lock order: tracker -> channels -> channel -> node state).
+        let mut channels = self.get_channels();
+
         let chan = {
-            let channels = self.get_channels();
             let arcobj = channels.get(&channel_id0).ok_or_else(|| {
                 invalid_argument(format!("channel does not exist: {}", channel_id0))
             })?;
@@ -1971,8 +1975,6 @@ impl Node {
         };
 
         validator.validate_setup_channel(self, &setup, holder_shutdown_key_path)?;
-
-        let mut channels = self.get_channels();
 
         // Wrap the ready channel with an arc so we can potentially
         // refer to it multiple times.
